@@ -70,11 +70,11 @@ structure Core (m : SeqMod) (s : St) : Prop where
 /-- `f->num_rows` is the row count of the pattern being played. -/
 def Fresh (m : SeqMod) (s : St) : Prop := s.numRows = m.rowsOf (m.xo s.ord)
 
-/-- the row part of the invariant: the row is inside the current pattern, and unless a
-reposition is pending `f->num_rows` is fresh -/
+/-- the row part of the invariant: the row is inside the current pattern and `f->num_rows` is
+fresh (only `next_order` and `xmp_set_row` write it, together with `p->ord`) -/
 structure RowInv (m : SeqMod) (s : St) : Prop where
   rowLt : s.row < m.rowsOf (m.xo s.ord)
-  numOk : s.pos = s.ord → Fresh m s
+  numOk : Fresh m s
 
 /-- what holds after every successful frame, except `row < rows` -/
 structure FInvCore (m : SeqMod) (s : St) : Prop where
@@ -312,7 +312,7 @@ theorem kernelPre_spec {m : SeqMod} (w : WFacts m) {s s' : St} (hc : Core m s) (
             obtain ⟨p3, _, l3, fr3⟩ := nextRow_spec w (playing_checkEnd p2) heq3
             have hl := (checkEnd_same m s2).2.2.2.2.2.2.2.2.2.2.2.2.2.2.2.2.2
             refine ⟨p3, by rw [l3]; simp only at l2; omega, fun ri => ?_⟩
-            have f2 := fr2 (ri.numOk hpo)
+            have f2 := fr2 ri.numOk
             exact fr3 (fresh_checkEnd f2).1
       · split at h
         · simp at h
@@ -320,11 +320,11 @@ theorem kernelPre_spec {m : SeqMod} (w : WFacts m) {s s' : St} (hc : Core m s) (
           simp only [Res.ok.injEq] at h
           subst h
           obtain ⟨p2, _, l2, fr2⟩ := nextRow_spec w hp1 heq
-          exact ⟨p2, by rw [l2]; simp, fun ri => fr2 (ri.numOk hpo)⟩
+          exact ⟨p2, by rw [l2]; simp, fun ri => fr2 ri.numOk⟩
     · simp only [Res.ok.injEq] at h
       subst h
       refine ⟨hp1, by simp, fun ri => ?_⟩
-      have := ri.numOk hpo
+      have := ri.numOk
       unfold Fresh at *
       exact ⟨this, by simp only; rw [this]; exact ri.rowLt⟩
 
@@ -492,8 +492,7 @@ def CSame (s s' : St) : Prop :=
 
 theorem spBlock_spec {m : SeqMod} {s1 s2 : St} {seq pos' : Int} (h : spBlock m s1 seq pos' = some s2) :
     CSame s1 s2 ∧ s2.sequence = s1.sequence ∧ s2.pos = s1.pos ∧ s2.jump = s1.jump ∧
-    (s2.jumpline = s1.jumpline ∨ s2.jumpline = 0) ∧
-    (s2.numRows = s1.numRows ∨ s2.numRows = m.rowsOf (if pos' < m.len then m.xo pos' else 0xff)) := by
+    (s2.jumpline = s1.jumpline ∨ s2.jumpline = 0) ∧ s2.numRows = s1.numRows := by
   unfold spBlock at h
   simp only at h
   generalize (if pos' < m.len then m.xo pos' else 0xff) = patv at h ⊢
@@ -504,11 +503,11 @@ theorem spBlock_spec {m : SeqMod} {s1 s2 : St} {seq pos' : Int} (h : spBlock m s
     · simp only [h2, if_false] at h
       by_cases h3 : pos' > geti m.scanOrd seq
       · simp only [h3, if_true, Option.some.injEq] at h; subst h
-        exact ⟨⟨rfl, rfl, rfl, rfl, rfl, rfl, rfl, rfl⟩, rfl, rfl, rfl, Or.inl rfl, Or.inl rfl⟩
+        exact ⟨⟨rfl, rfl, rfl, rfl, rfl, rfl, rfl, rfl⟩, rfl, rfl, rfl, Or.inl rfl, rfl⟩
       · simp only [h3, if_false, Option.some.injEq] at h; subst h
-        exact ⟨⟨rfl, rfl, rfl, rfl, rfl, rfl, rfl, rfl⟩, rfl, rfl, rfl, Or.inr rfl, Or.inr rfl⟩
+        exact ⟨⟨rfl, rfl, rfl, rfl, rfl, rfl, rfl, rfl⟩, rfl, rfl, rfl, Or.inr rfl, rfl⟩
   · simp only [h1, if_false, Option.some.injEq] at h; subst h
-    exact ⟨⟨rfl, rfl, rfl, rfl, rfl, rfl, rfl, rfl⟩, rfl, rfl, rfl, Or.inl rfl, Or.inl rfl⟩
+    exact ⟨⟨rfl, rfl, rfl, rfl, rfl, rfl, rfl, rfl⟩, rfl, rfl, rfl, Or.inl rfl, rfl⟩
 
 theorem spCommit_spec (m : SeqMod) (s2 : St) (pos' : Int) :
     CSame s2 (spCommit m s2 pos') ∧ (spCommit m s2 pos').sequence = s2.sequence ∧
@@ -537,30 +536,23 @@ theorem csame_trans {a b c : St} (h1 : CSame a b) (h2 : CSame b c) : CSame a c :
   unfold CSame at *; omega
 
 theorem spTarget_spec (m : SeqMod) (seq pos dir : Int) (hs : 0 ≤ m.entryOf seq) (hp : 0 ≤ pos) :
-    0 ≤ spTarget m seq pos dir ∧ (dir = 0 → spTarget m seq pos dir = pos ∨ m.marker = true) := by
+    0 ≤ spTarget m seq pos dir := by
   unfold spTarget
   simp only
   have h1 := skipMarker_nonneg m (m.entryOf seq) dir hs 258 pos hp
-  constructor
-  · split
-    · exact skipNoPat_nonneg m 258 _ h1
-    · exact h1
-  · intro hd
-    rw [if_neg (by omega)]
-    unfold skipMarker
-    by_cases hm : m.marker = true
-    · right; exact hm
-    · left; simp [hm]
+  split
+  · exact skipNoPat_nonneg m 258 _ h1
+  · exact h1
 
 theorem spMove_spec {m : SeqMod} {s1 : St} (hc1 : Core m s1) (seq pos' dir : Int) (_hseq : s1.sequence = seq)
-    (hp'ge : 0 ≤ pos') (hmk : dir = 0 → pos' < m.len ∨ m.marker = true) (r : St) (hr : spMove m s1 seq pos' dir = r) :
-    Core m r ∧ CSame s1 r ∧ (r.pos = r.ord → r.numRows = s1.numRows ∨ Fresh m r) := by
+    (hp'ge : 0 ≤ pos') (r : St) (hr : spMove m s1 seq pos' dir = r) :
+    Core m r ∧ CSame s1 r ∧ r.numRows = s1.numRows := by
   unfold spMove at hr
   simp only at hr
   by_cases hrel : dir ≠ 0 ∧ (pos' ≥ m.len ∨ (m.marker = true ∧ (if pos' < m.len then m.xo pos' else 0xff) = 0xff) ∨
       geti m.seqCtl pos' ≠ seq)
   · rw [if_pos hrel] at hr; subst hr
-    exact ⟨hc1, ⟨rfl, rfl, rfl, rfl, rfl, rfl, rfl, rfl⟩, fun _ => Or.inl rfl⟩
+    exact ⟨hc1, ⟨rfl, rfl, rfl, rfl, rfl, rfl, rfl, rfl⟩, rfl⟩
   rw [if_neg hrel] at hr
   generalize hs1b : ({ s1 with endPoint := if pos' > geti m.scanOrd seq then 0 else geti m.scanNum seq } : St) = s1b at hr
   have e1b : CSame s1 s1b ∧ s1b.sequence = s1.sequence ∧ s1b.pos = s1.pos ∧ s1b.jump = s1.jump ∧
@@ -571,63 +563,39 @@ theorem spMove_spec {m : SeqMod} {s1 : St} (hc1 : Core m s1) (seq pos' dir : Int
     (by rw [d4]; exact hc1.jump) (by rw [d5]; exact hc1.jumpline)
   split at hr
   · subst hr
-    exact ⟨hc1b, d1, fun _ => Or.inl d6⟩
+    exact ⟨hc1b, d1, d6⟩
   · rename_i s2 hb
     obtain ⟨b1, b2, b3, b4, b5, b6⟩ := spBlock_spec hb
     obtain ⟨c1, c2, c3, c4⟩ := spCommit_spec m s2 pos'
     rw [hr] at c1 c2 c3 c4
     have k : CSame s1 r := csame_trans d1 (csame_trans b1 c1)
-    refine ⟨?_, k, ?_⟩
-    · apply core_of_csame hc1 k
-      · rw [c2, b2, d2]; exact hc1.seq
-      · rcases c4 with ⟨hl, hp, _, _⟩ | ⟨_, he⟩
-        · rw [hp]; split <;> omega
-        · rw [he, b3, d3]; exact hc1.pos
-      · rcases c4 with ⟨_, _, hj, _⟩ | ⟨_, he⟩
-        · omega
-        · rw [he, b4, d4]; exact hc1.jump
-      · rcases c4 with ⟨_, _, _, hj⟩ | ⟨_, he⟩
-        · omega
-        · rw [he]; have := hc1.jumpline; omega
-    · intro hpo
-      rcases c4 with ⟨hl, hp, _, _⟩ | ⟨hl, he⟩
-      · rcases b6 with b6 | b6
-        · left; rw [c3, b6, d6]
-        · right
-          unfold Fresh
-          rw [c3, b6, k.1]
-          rw [hp, k.1] at hpo
-          have : pos' = s1.ord := by split at hpo <;> (have := hc1.ord; omega)
-          rw [if_pos hl, this]
-      · -- position not committed (pos' ≥ len): only possible for dir = 0 with the marker quirk;
-        -- the block either returned early or changed nothing
-        left
-        have hd0 : dir = 0 := by
-          refine Classical.byContradiction fun hne => hrel ⟨hne, Or.inl (by omega)⟩
-        rcases hmk hd0 with h | h
-        · omega
-        · unfold spBlock at hb
-          simp only [if_neg hl] at hb
-          by_cases hp : (255 : Int) < m.pat
-          · simp [hp, h] at hb
-          · simp only [hp, if_false, Option.some.injEq] at hb
-            rw [c3, ← hb, d6]
+    refine ⟨?_, k, by rw [c3, b6, d6]⟩
+    apply core_of_csame hc1 k
+    · rw [c2, b2, d2]; exact hc1.seq
+    · rcases c4 with ⟨hl, hp, _, _⟩ | ⟨_, he⟩
+      · rw [hp]; split <;> omega
+      · rw [he, b3, d3]; exact hc1.pos
+    · rcases c4 with ⟨_, _, hj, _⟩ | ⟨_, he⟩
+      · omega
+      · rw [he, b4, d4]; exact hc1.jump
+    · rcases c4 with ⟨_, _, _, hj⟩ | ⟨_, he⟩
+      · omega
+      · rw [he]; have := hc1.jumpline; omega
 
-/-- `set_position` keeps the range invariant; it never writes ord/row/loop counter. If it
-leaves `pos = ord` then `num_rows` is either untouched or the row count of that order. -/
+/-- `set_position` keeps the range invariant; it never writes ord/row/loop counter/num_rows. -/
 theorem setPosition_spec {m : SeqMod} (w : WFacts m) {s : St} (hc : Core m s) (pos dir : Int) (hpos : -1 ≤ pos)
     (hd : dir = 0 → 0 ≤ pos ∧ pos < m.len) (r : St) (hr : setPosition m s pos dir = r) :
-    Core m r ∧ CSame s r ∧ (r.pos = r.ord → r.numRows = s.numRows ∨ Fresh m r) := by
+    Core m r ∧ CSame s r ∧ r.numRows = s.numRows := by
   unfold setPosition at hr
   simp only at hr
   generalize hq : (if dir = 0 then geti m.seqCtl pos else s.sequence) = q at hr
   by_cases hff : q = 0xff
   · rw [if_pos hff] at hr; subst hr
-    exact ⟨hc, ⟨rfl, rfl, rfl, rfl, rfl, rfl, rfl, rfl⟩, fun _ => Or.inl rfl⟩
+    exact ⟨hc, ⟨rfl, rfl, rfl, rfl, rfl, rfl, rfl, rfl⟩, rfl⟩
   rw [if_neg hff] at hr
   by_cases hneg : q < 0
   · rw [if_pos hneg] at hr; subst hr
-    exact ⟨hc, ⟨rfl, rfl, rfl, rfl, rfl, rfl, rfl, rfl⟩, fun _ => Or.inl rfl⟩
+    exact ⟨hc, ⟨rfl, rfl, rfl, rfl, rfl, rfl, rfl, rfl⟩, rfl⟩
   rw [if_neg hneg] at hr
   have hq2 : q < m.numSeq := by
     rw [← hq]; rw [← hq] at hff hneg
@@ -647,31 +615,25 @@ theorem setPosition_spec {m : SeqMod} (w : WFacts m) {s : St} (hc : Core m s) (p
     (by rw [a4]; exact hc.jump) (by rw [a5]; exact hc.jumpline)
   by_cases hin : 0 ≤ pos ∧ pos < m.len
   · rw [if_pos hin] at hr
-    obtain ⟨t1, t2⟩ := spTarget_spec m q pos dir hst.1 hin.1
-    obtain ⟨r1, r2, r3⟩ := spMove_spec hc1 q (spTarget m q pos dir) dir a2 t1
-      (fun h0 => by rcases t2 h0 with h | h; · left; omega
-                    · right; exact h) r hr
-    refine ⟨r1, csame_trans a1 r2, fun hpo => ?_⟩
-    rcases r3 hpo with h | h
-    · left; rw [h, a6]
-    · right; exact h
+    have t1 := spTarget_spec m q pos dir hst.1 hin.1
+    obtain ⟨r1, r2, r3⟩ := spMove_spec hc1 q (spTarget m q pos dir) dir a2 t1 r hr
+    exact ⟨r1, csame_trans a1 r2, by rw [r3, a6]⟩
   · rw [if_neg hin] at hr
     obtain ⟨c1, c2, c3, c4⟩ := spCommit_spec m s1 pos
     rw [hr] at c1 c2 c3 c4
     have k : CSame s r := csame_trans a1 c1
-    refine ⟨?_, k, ?_⟩
-    · apply core_of_csame hc k
-      · rw [c2, a2]; exact ⟨by omega, hq2⟩
-      · rcases c4 with ⟨hl, hp, _, _⟩ | ⟨_, he⟩
-        · rw [hp]; split <;> omega
-        · rw [he, a3]; exact hc.pos
-      · rcases c4 with ⟨_, _, hj, _⟩ | ⟨_, he⟩
-        · omega
-        · rw [he, a4]; exact hc.jump
-      · rcases c4 with ⟨_, _, _, hj⟩ | ⟨_, he⟩
-        · omega
-        · rw [he, a5]; exact hc.jumpline
-    · intro _; left; rw [c3, a6]
+    refine ⟨?_, k, by rw [c3, a6]⟩
+    apply core_of_csame hc k
+    · rw [c2, a2]; exact ⟨by omega, hq2⟩
+    · rcases c4 with ⟨hl, hp, _, _⟩ | ⟨_, he⟩
+      · rw [hp]; split <;> omega
+      · rw [he, a3]; exact hc.pos
+    · rcases c4 with ⟨_, _, hj, _⟩ | ⟨_, he⟩
+      · omega
+      · rw [he, a4]; exact hc.jump
+    · rcases c4 with ⟨_, _, _, hj⟩ | ⟨_, he⟩
+      · omega
+      · rw [he, a5]; exact hc.jumpline
 
 theorem start_spec {m : SeqMod} (w : WFacts m) {speed0 : Int} {s : St} (h : start m speed0 = some s) :
     Core m s ∧ RowInv m s ∧ s.loopCount = 0 := by
@@ -703,11 +665,7 @@ theorem start_spec {m : SeqMod} (w : WFacts m) {speed0 : Int} {s : St} (h : star
     · simp [resetFlow]
     · simp [resetFlow]
     · simp only [resetFlow, updateFromOrdInfo]; omega
-    · intro _; rfl
-
-def isPosCall : Ctl → Bool
-  | .setPos _ | .next | .prev | .seek _ => true
-  | _ => false
+    · rfl
 
 theorem seekLoop_nonneg (m : SeqMod) (s : St) (t : Int) : ∀ (n : Nat) (i : Int), seekLoop m s t n = some i → 0 ≤ i := by
   intro n
@@ -725,81 +683,67 @@ theorem seekLoop_nonneg (m : SeqMod) (s : St) (t : Int) : ∀ (n : Nat) (i : Int
         · simp only [Option.some.injEq] at h; omega
         · exact ih i h
 
-/-- every position-control call, as a `set_position`-like step -/
+/-- every position-control call (any argument, accepted or refused) keeps both invariants -/
 theorem ctl_spec {m : SeqMod} (w : WFacts m) {s : St} (hc : Core m s) (c : Ctl) :
-    Core m (ctl m s c) ∧
-    (RowInv m s → (isPosCall c = true → Fresh m s) → RowInv m (ctl m s c)) := by
+    Core m (ctl m s c) ∧ (RowInv m s → RowInv m (ctl m s c)) := by
   have sp : ∀ pos dir, -1 ≤ pos → (dir = 0 → 0 ≤ pos ∧ pos < m.len) →
-      Core m (setPosition m s pos dir) ∧
-      (RowInv m s → Fresh m s → RowInv m (setPosition m s pos dir)) := by
+      Core m (setPosition m s pos dir) ∧ (RowInv m s → RowInv m (setPosition m s pos dir)) := by
     intro pos dir h1 h2
     obtain ⟨a, b, c⟩ := setPosition_spec w hc pos dir h1 h2 _ rfl
-    refine ⟨a, fun ri fr => ⟨?_, fun hpo => ?_⟩⟩
+    refine ⟨a, fun ri => ⟨?_, ?_⟩⟩
     · rw [b.1, b.2.1]; exact ri.rowLt
-    · rcases c hpo with h | h
-      · unfold Fresh at *; rw [h, b.1]; exact fr
-      · exact h
-  have same : Core m s ∧ (RowInv m s → Fresh m s → RowInv m s) := ⟨hc, fun r _ => r⟩
+    · have := ri.numOk; unfold Fresh at *; rw [c, b.1]; exact this
   have he := w.entry s.sequence hc.seq.1 hc.seq.2
   cases c with
   | setPos p =>
-    simp only [ctl, apiSetPosition, isPosCall]
+    simp only [ctl, apiSetPosition]
     split
-    · exact ⟨hc, fun r _ => r⟩
-    · rename_i h
-      have := sp p 0 (by omega) (fun _ => by omega)
-      exact ⟨this.1, fun r f => this.2 r (f trivial)⟩
+    · exact ⟨hc, fun r => r⟩
+    · exact sp p 0 (by omega) (fun _ => by omega)
   | next =>
-    simp only [ctl, nextPosition, isPosCall]
+    simp only [ctl, nextPosition]
     split
-    · have := sp (s.pos + 1) 1 (by have := hc.pos; omega) (fun h => by omega)
-      exact ⟨this.1, fun r f => this.2 r (f trivial)⟩
-    · exact ⟨hc, fun r _ => r⟩
+    · exact sp (s.pos + 1) 1 (by have := hc.pos; omega) (fun h => by omega)
+    · exact ⟨hc, fun r => r⟩
   | prev =>
-    simp only [ctl, prevPosition, isPosCall]
+    simp only [ctl, prevPosition]
     split
-    · have := sp (-1) (-1) (by omega) (fun h => by omega)
-      exact ⟨this.1, fun r f => this.2 r (f trivial)⟩
+    · exact sp (-1) (-1) (by omega) (fun h => by omega)
     · split
-      · have := sp (s.pos - 1) (-1) (by omega) (fun h => by omega)
-        exact ⟨this.1, fun r f => this.2 r (f trivial)⟩
-      · exact ⟨hc, fun r _ => r⟩
+      · exact sp (s.pos - 1) (-1) (by omega) (fun h => by omega)
+      · exact ⟨hc, fun r => r⟩
   | setRow r =>
     have hp := hc.pos
     have hl := w.len
     have e : (if s.pos < 0 ∨ s.pos ≥ m.len then 0 else s.pos) = (if s.pos < 0 then 0 else s.pos) := by
       split <;> split <;> omega
-    simp only [ctl, apiSetRow, isPosCall, e]
+    simp only [ctl, apiSetRow, e]
     generalize hp1 : (if s.pos < 0 then 0 else s.pos) = p1
     have hp1r : 0 ≤ p1 ∧ p1 < m.len := by rw [← hp1]; split <;> omega
     by_cases hg : m.xo p1 ≥ m.pat ∨ r < 0 ∨ r ≥ m.rowsOf (m.xo p1)
     · rw [if_pos hg]
-      exact ⟨hc, fun r _ => r⟩
+      exact ⟨hc, fun r => r⟩
     · rw [if_neg hg]
       simp only [not_or, Int.not_lt, ge_iff_le, Int.not_le] at hg
       simp only [Option.getD_some]
       exact ⟨⟨hc.seq, hp1r, hg.1, ⟨by simp only; omega, hp1r.2⟩, hg.2.1, hc.speed, hc.bpm, hc.ftBpm, hc.st26, hc.jump, hc.jumpline⟩,
-        fun _ _ => ⟨hg.2.2, fun _ => rfl⟩⟩
+        fun _ => ⟨hg.2.2, rfl⟩⟩
   | seek t =>
-    simp only [ctl, seekTime, isPosCall]
+    simp only [ctl, seekTime]
     split
     · rename_i i hi
-      have := sp i 1 (by have := seekLoop_nonneg m s t _ i hi; omega) (fun h => by omega)
-      exact ⟨this.1, fun r f => this.2 r (f trivial)⟩
+      exact sp i 1 (by have := seekLoop_nonneg m s t _ i hi; omega) (fun h => by omega)
     · simp only [apiSetPosition]
       split
-      · exact ⟨hc, fun r _ => r⟩
-      · have := sp 0 0 (by omega) (fun _ => by have := w.len; omega)
-        exact ⟨this.1, fun r f => this.2 r (f trivial)⟩
+      · exact ⟨hc, fun r => r⟩
+      · exact sp 0 0 (by omega) (fun _ => by have := w.len; omega)
   | stop =>
-    simp only [ctl, stopModule, isPosCall]
-    refine ⟨⟨hc.seq, hc.ord, hc.ordPat, ⟨by simp only; omega, by have := w.len; simp only; omega⟩, hc.row, hc.speed, hc.bpm, hc.ftBpm, hc.st26, hc.jump,
-      hc.jumpline⟩, fun ri _ => ⟨ri.rowLt, fun h => ?_⟩⟩
-    have := hc.ord; simp only at h; omega
+    simp only [ctl, stopModule]
+    exact ⟨⟨hc.seq, hc.ord, hc.ordPat, ⟨by simp only; omega, by have := w.len; simp only; omega⟩, hc.row, hc.speed, hc.bpm,
+      hc.ftBpm, hc.st26, hc.jump, hc.jumpline⟩, fun ri => ⟨ri.rowLt, ri.numOk⟩⟩
   | restart =>
-    simp only [ctl, restartModule, isPosCall]
-    refine ⟨⟨hc.seq, hc.ord, hc.ordPat, ⟨by simp only; omega, by have := w.len; simp only; omega⟩, hc.row, hc.speed, hc.bpm, hc.ftBpm, hc.st26, hc.jump,
-      hc.jumpline⟩, fun ri _ => ⟨ri.rowLt, fun h => ?_⟩⟩
-    have := hc.ord; simp only at h; omega
+    simp only [ctl, restartModule]
+    exact ⟨⟨hc.seq, hc.ord, hc.ordPat, ⟨by simp only; omega, by have := w.len; simp only; omega⟩, hc.row, hc.speed, hc.bpm,
+      hc.ftBpm, hc.st26, hc.jump, hc.jumpline⟩, fun ri => ⟨ri.rowLt, ri.numOk⟩⟩
 
 end Xmp.Seq
